@@ -1,5 +1,14 @@
 import FranzVerif.Model.Producer
-/-! Helper definitions (history-level observables) and lemmas for the producer monitor theorems. -/
+/-! Helper definitions (history-level observables) and lemmas for the producer monitor theorems.
+
+Layout of the proof:
+* this file: the observables, `find`/`upd` lemmas, how each observable changes on `h ++ [ev]`, and the
+  per-record invariant `RecInv h id r` (what the monitor's record for `id` says about the history `h`)
+  with its frame lemma (an event about another record does not disturb it);
+* `Proof/ProducerInv.lean`: the global invariant `Inv c h s` and its preservation by every accepted
+  event (one lemma per event kind), `Inv.run`, `inv_of_run`, `run_append`, `run_split`;
+* `Proof/ProducerFacts.lean`: facts read off the invariant (quiescence, promiseRanIds, pending Flush);
+* `Proof/ProducerFull.lean`: the history-level meaning of the `sawFull` flag. -/
 namespace Proof.Producer
 open Model.Producer
 
